@@ -13,8 +13,8 @@
     the model by construction and needs no theorem; on the implementation it is checked by
     the before/after comparison of the correspondence run (flag 1 in the observation). *)
 From Coq Require Import ZArith List Bool Lia.
-From Low Require Import Lib.Bits Lib.BitSeq Model.BitmapJoin Model.LegacyBitmap Spec.JoinSpec
-  Proofs.JoinProofs.
+From Low Require Import Lib.MachInt Lib.Bits Lib.BitSeq Model.BitmapJoin Model.LegacyBitmap Spec.JoinSpec
+  Proofs.JoinProofs Model.BitmapMask Spec.MaskSpec Model.BitmapGetw32 Spec.GetwSpec Proofs.GetwProofs.
 Import ListNotations.
 Open Scope Z_scope.
 
@@ -72,6 +72,43 @@ Theorem C14_spec_unique : forall vs w ws from to r r',
 Proof. exact (fun vs w ws from to r r' => conj (spec_Join_unique vs w r r') (spec_Slice_unique ws from to r r')). Qed.
 Print Assumptions C14_spec_unique.
 
+(** ** Widening: neighbouring code of the package that Join/Getw/Slice rely on or are combined with *)
+
+(** bitmap/mask.go: the six tables as [initMasks] fills them (uint64 shifts and wraps written out) hold
+    exactly the closed forms of Lib/Bits.v that every model of the package uses for a table read, and a
+    read outside a table panics: [Mask], [RMask] have 65 entries, the other four 64. *)
+Theorem C14_mask_tables : forall j, mask_lookups initMasks j = spec_mask_lookups j.
+Proof. exact mask_tables_correct. Qed.
+Print Assumptions C14_mask_tables.
+
+(** Getw on ANY bitmap and ANY index: the number formed by bits [i*w, i*w+w) of the bitmap, a panic
+    when that window does not lie inside the bitmap (negative index included).  First over unbounded
+    positions, then for the model with Go's int32 product [i *= w], which agrees while i*w fits int32. *)
+Theorem C14_Getw_any : forall bm i w, width_ok w -> words_ok bm ->
+  Getw bm i w = (if (0 <=? i) && (i * w <? 64 * zlen bm)
+                 then Some (val_lsb (firstn (Z.to_nat w) (skipn (Z.to_nat (i * w)) (flat bm)))) else None).
+Proof. exact Getw_any. Qed.
+Print Assumptions C14_Getw_any.
+
+Theorem C14_Getw32_any : forall bm i w, width_ok w -> words_ok bm -> - 2^31 <= i * w < 2^31 ->
+  Getw32 bm i w = spec_Getw_any bm i w.
+Proof. exact Getw32_any. Qed.
+Print Assumptions C14_Getw32_any.
+
+(** the models in unbounded [Z] used by the theorems above are the int32 code while positions fit int32 *)
+Theorem C14_int32_agree : forall bm i w from to,
+  (- 2^31 <= i * w < 2^31 -> Getw32 bm i w = Getw bm i w) /\
+  (0 <= to - from -> to - from + 63 < 2^31 -> Slice32 bm from to = Slice bm from to).
+Proof. exact (fun bm i w from to => conj (Getw32_eq bm i w) (Slice32_eq bm from to)). Qed.
+Print Assumptions C14_int32_agree.
+
+(** lossless in the other direction: splitting a bitmap into its w-bit elements with Getw and joining
+    them again gives the bitmap back *)
+Theorem C14_SplitJoin : forall bm w, width_ok w -> words_ok bm -> 64 * zlen bm < 2^31 ->
+  SplitJoin bm w = Some bm.
+Proof. exact SplitJoin_id. Qed.
+Print Assumptions C14_SplitJoin.
+
 (** The pre-fix Slice returned ((to-from)+63)&^63 WORDS: 128 for the 69-bit range [1,70). *)
 Theorem C14_slice_len_refuted :
   exists ws from to r, words_ok ws /\ 0 <= from <= to /\ to <= 64 * zlen ws /\
@@ -108,3 +145,18 @@ Proof.
   split; [apply words_okb_ok; reflexivity|].
   vm_compute. intuition congruence.
 Qed.
+
+(** non-vacuity, widening: table entries at the ends (the shift by 64 that wraps), reads that panic;
+    Getw inside / outside / negative, and the int32 wrap (index 2^26 of width 64 reads element 0 in Go,
+    which is why the statement needs i*w inside int32); split + Join *)
+Example C14_widen_nonvacuous :
+  mask_lookups initMasks 64 = [Some (2^64 - 1); Some 0; None; None; None; None] /\
+  mask_lookups initMasks 63 = [Some (2^63 - 1); Some (2^63); Some (2^64 - 1); Some 0; Some (2^63); Some (2^63 - 1)] /\
+  mask_lookups initMasks (-1) = [None; None; None; None; None; None] /\
+  Getw [0xa5; 7] 1 4 = Some 0xa /\ spec_Getw_any [0xa5; 7] 1 4 = Some 0xa /\
+  Getw [0xa5; 7] 32 4 = None /\ Getw [0xa5; 7] (-1) 4 = None /\
+  Getw32 [0xa5; 7] (2^26) 64 = Some 0xa5 /\ spec_Getw_any [0xa5; 7] (2^26) 64 = None /\
+  width_ok 16 /\ 64 * zlen [0xa5; 2^63 + 7] < 2^31 /\
+  SplitJoin [0xa5; 2^63 + 7] 16 = Some [0xa5; 2^63 + 7] /\
+  elements [0xa5; 2^63 + 7] 16 = [0xa5; 0; 0; 0; 7; 0; 0; 0x8000].
+Proof. vm_compute. intuition congruence. Qed.
